@@ -24,7 +24,7 @@ def register(reg, prog):
         '_active_exchanges': Opt(Dict(KEY, EXCH, 'mm.active')),
         '_backlogs': Dict(Opt(Ref('Remote')), List(BACKLOG_ITEM), 'mm.backlogs'),
         '_piggyback_opportunities': Dict(PBKEY, Tuple(Opt(INT), Ref('TimerHandle')), 'mm.pb'),
-        'loop': Ref('Loop'), 'message_interface': Ref('MessageInterface')})
+        'loop': Ref('Loop'), 'message_interface': Ref('MessageInterface'), 'log': ANY})
     F = reg.classes['MessageManager'].fields
     MF = reg.classes['Message'].fields
     reg.declare_class('Loop', 'asyncio:AbstractEventLoop', opaque=True)
@@ -321,7 +321,7 @@ def register(reg, prog):
         g.append(('monitor-stored', ev('self._active_exchanges[(message.remote, message.mid)][0] is messageerror_monitor')))
         return g
 
-    reg.contract(MM + '._add_exchange', params={'message': MSG, 'messageerror_monitor': CALLABLE}, properties=['C03', 'C14'],
+    reg.contract(MM + '._add_exchange', params={'message': MSG, 'messageerror_monitor': CALLABLE}, properties=['C03', 'C14', 'C02'],      # C02: a queued request that is dropped never completes
                  requires=['mm_inv(self, message.remote)', 'message.remote is not None', 'message.mid is not None', 'tuning_ok(message)',
                            'not exists_active(self, message.remote)'],
                  only_raises=True, at_exit=add_exit, modifies=[ACT, BL],
@@ -664,7 +664,7 @@ def register(reg, prog):
                                               'and forall(j, 0, len(lst) - 1, lst[j] == old(self._backlogs[message.remote][j]))', lst=e[1], it=e[2])))
         return g
 
-    reg.contract(MM + '.send_message', params={'message': MSG, 'messageerror_monitor': Opt(CALLABLE)}, properties=['C10', 'C14', 'C18'],
+    reg.contract(MM + '.send_message', params={'message': MSG, 'messageerror_monitor': Opt(CALLABLE)}, properties=['C10', 'C14', 'C18', 'C04'],     # C04: the stored answer of a duplicate is keyed by the MID the response leaves with
                  requires=['mm_inv_sd(self)', 'message.code is not None', 'message.remote is not None',
                            'implies(message.mtype is not None, 0 <= message.mtype <= 3)', '0 <= message.code <= 255',
                            'implies(message.opt.no_response is not None, 0 <= message.opt.no_response)',
@@ -799,6 +799,13 @@ def register(reg, prog):
                 # every entry of _recent_messages has an armed expiry timer that pops it WITHOUT a default (a missing entry
                 # raises KeyError in the event loop after shutdown): shutdown must leave the entries to their timers
                 ('deduplication-entries-are-left-to-their-expiry-timers', dict_frame(ex, s, entry, env['self'], reg.classes['MessageManager'].fields, '_recent_messages'))]
+
+    reg.declare_class('TokenManagerI', 'aiocoap.interfaces:TokenManager', opaque=True, fields={'log': ANY, 'loop': Ref('Loop')})
+    reg.contract(MM + '.__init__', params={'token_manager': Ref('TokenManagerI')}, properties=['C18', 'C14', 'C04'], only_raises=True, modifies=['*'],
+                 ensures={'own-empty-tables': 'is_new(self._recent_messages) and is_new(self._backlogs) and is_new(self._piggyback_opportunities) and self._active_exchanges is not None and is_new(self._active_exchanges) '
+                                              'and len(self._recent_messages) == 0 and len(self._backlogs) == 0 and len(self._piggyback_opportunities) == 0 and len(self._active_exchanges) == 0',
+                          'invariant-established': 'mm_inv(self)',
+                          'message-id-in-range': '0 <= self.message_id <= 65535', 'bound-to-its-token-manager': 'self.token_manager is token_manager and self.loop is token_manager.loop'})
 
     reg.contract(MM + '.shutdown', properties=['C18'], requires=['mm_inv(self)'],
                  raises={'CancelledError': MAY}, only_raises=True,
